@@ -851,6 +851,7 @@ func (v *Verifier) execInstr(fn *ssa.Function, s *State, ins ssa.Instruction, fc
 		id := Fresh("clo!"+funcRef(t.Fn.(*ssa.Function)), SInt)
 		s.assume(Gt(id, Int(0)))
 		v.set(s, t, &Value{T: t.Type(), L: []*Term{id}, Clo: &Closure{Fn: t.Fn.(*ssa.Function), Binds: binds}})
+		v.checkCaptures(s, t, binds)
 	case *ssa.ChangeType:
 		x := v.reg(s, t.X)
 		v.set(s, t, &Value{T: t.Type(), L: x.L, LV: x.LV, Clo: x.Clo})
@@ -1860,4 +1861,97 @@ func (v *Verifier) concurrentWriteVar(s *State, fv *ssa.FreeVar, pos token.Pos) 
 		return
 	}
 	v.addOb(s, "lock", pos, Bool(len(s.held) > 0), "concurrent closure writes captured variable "+fv.Name()+" without holding a lock", v.topC.Props)
+}
+
+
+// checkCaptures: `captures e` in the contract of a closure is a fact about its captured variables that is assumed
+// whenever the closure runs; it is proved here, where the closure is created, and the variables it mentions must
+// never be assigned afterwards (neither by the creator nor by any closure sharing them).
+func (v *Verifier) checkCaptures(s *State, mc *ssa.MakeClosure, binds []*Value) {
+	cf := mc.Fn.(*ssa.Function)
+	cc := v.contracts.forFunc(cf)
+	if cc == nil || len(cc.Captures) == 0 || s.frame == nil || s.frame.fn != v.top || v.suppressObs > 0 {
+		return
+	}
+	env := map[string]*Value{}
+	for i, fv := range cf.FreeVars {
+		if i >= len(binds) || binds[i] == nil {
+			continue
+		}
+		pt, ok := fv.Type().(*types.Pointer)
+		if !ok {
+			continue
+		}
+		if binds[i].LV != nil {
+			env[fv.Name()] = s.load(binds[i].LV)
+		} else {
+			env[fv.Name()] = s.loadPtr(binds[i].term(), pt.Elem())
+		}
+	}
+	for _, c := range cc.Captures {
+		ev := &Eval{v: v, st: s, old: s, env: env, mode: evalCall, pkg: fnPkg(cf)}
+		v.addOb(s, "assert", mc.Pos(), ev.boolExpr(c.Expr), "captures (at the creation of "+funcRef(cf)+") "+c.Text, c.Props)
+		// single assignment of the variables the clause mentions
+		for i, fv := range cf.FreeVars {
+			if !exprMentions(c.Expr, fv.Name()) || i >= len(mc.Bindings) {
+				continue
+			}
+			stores := 0
+			if a, ok := mc.Bindings[i].(*ssa.Alloc); ok {
+				stores = countStores(a, map[ssa.Value]bool{})
+			} else {
+				stores = 2 // captured through an outer closure: not followed
+			}
+			v.addOb(s, "assert", mc.Pos(), Bool(stores <= 1), "captures (at the creation of "+funcRef(cf)+"): captured variable "+fv.Name()+" is assigned exactly once", c.Props)
+		}
+	}
+}
+
+func exprMentions(e *Expr, name string) bool {
+	if e == nil {
+		return false
+	}
+	if e.Op == "id" && e.Name == name {
+		return true
+	}
+	for _, a := range e.Args {
+		if exprMentions(a, name) {
+			return true
+		}
+	}
+	return false
+}
+
+// countStores counts the store instructions to a variable cell, following it into the closures that capture it.
+func countStores(a ssa.Value, seen map[ssa.Value]bool) int {
+	if seen[a] {
+		return 0
+	}
+	seen[a] = true
+	refs := a.Referrers()
+	if refs == nil {
+		return 2
+	}
+	n := 0
+	for _, r := range *refs {
+		switch t := r.(type) {
+		case *ssa.Store:
+			if t.Addr == a {
+				n++
+			} else {
+				n += 2 // the address itself escapes
+			}
+		case *ssa.MakeClosure:
+			fn := t.Fn.(*ssa.Function)
+			for i, b := range t.Bindings {
+				if b == a && i < len(fn.FreeVars) {
+					n += countStores(fn.FreeVars[i], seen)
+				}
+			}
+		case *ssa.UnOp, *ssa.DebugRef:
+		default:
+			n += 2
+		}
+	}
+	return n
 }
